@@ -66,7 +66,12 @@ func runC18(args []string) error {
 			return err
 		}
 		v := tsVariants[ts][r.Intn(len(tsVariants[ts]))]
-		fi := frameInfo(12+r.Intn(20), 12+r.Intn(20), v.ba, v.bs, v.spp, v.pixrep, 0)
+		// alternate small (< 32) and larger frames: geometry-dependent parameter handling must be exercised both ways
+		dim := 12 + r.Intn(18)
+		if len(fx)%2 == 1 {
+			dim = 40 + r.Intn(30)
+		}
+		fi := frameInfo(dim, dim+r.Intn(5), v.ba, v.bs, v.spp, v.pixrep, 0)
 		f := &concFixture{fi: fi, encSolo: map[string][]string{}, decSolo: map[string][]string{}}
 		fr := c10Frames(r, fi)
 		f.frames = [][]byte{fr["A"], fr["B"]}
